@@ -1416,7 +1416,12 @@ func (is *indexSearch) measurementSeriesByExprIterator(name []byte, expr influxq
 				return nil, err
 			}
 		}
-		return is.genSeriesIDIterator(tsids, expr.(*influxql.BinaryExpr)), nil
+		// the condition may be wrapped in parentheses: `WHERE (usage > 1)`
+		be, cerr := expr2BinaryExpr(expr)
+		if cerr != nil {
+			return nil, cerr
+		}
+		return is.genSeriesIDIterator(tsids, be), nil
 	}
 	return itr, err
 }
